@@ -256,9 +256,58 @@ fn check_case_inner(case: &Case) -> CaseResult {
             }
         }
     }
+    // A judge of the caller's own: a budget of encoded bytes per record.  It is shown every segment as
+    // it is read, invalid ones included ("still passed to the record_judge for early exit"), and the
+    // last time it is shown a segment the range covers all of it, so reading must end at the first
+    // segment longer than the budget, whatever the segments before it were.  The budget sits at the
+    // length of one of the segments -1/0/+1.  (After a Stop nothing more is asked of the reader.)
+    let mut budget_stop = false;
+    if !segments.is_empty() {
+        let pick = &segments[(stream.len() + case.delivery.script.len()) % segments.len()];
+        let budget = ((pick.end - pick.start) as u64 + (stream.len() % 3) as u64).saturating_sub(1);
+        let budget_judge = |range: std::ops::Range<u64>, _: owning_iovec::ConsumingIovec<'_>| {
+            if range.end - range.start > budget {
+                hcobs::StreamAction::Stop
+            } else {
+                hcobs::StreamAction::KeepGoing
+            }
+        };
+        let mut expected3: Vec<(&[u8], std::ops::Range<u64>)> = vec![];
+        for seg in &segments {
+            if (seg.end - seg.start) as u64 > budget {
+                budget_stop = true;
+                break;
+            }
+            if let Some(d) = &seg.decoded {
+                expected3.push((d, seg.start as u64..seg.end as u64));
+            }
+        }
+        let mut reader3 = CyclicReader::new(&stream, &case.delivery);
+        let mut sr3 = StreamReader::new();
+        for j in 0..=expected3.len() {
+            let got = sr3.next_record_bytes(&mut reader3, &budget_judge, block).map_err(|e| Fail::new("reader:io-error", e.to_string()))?;
+            let same = match (&got, expected3.get(j)) {
+                (Some((iovec, range)), Some((want_bytes, want_range))) => iovec.flatten().map(|b| b == *want_bytes).unwrap_or(false) && range == want_range,
+                (None, None) => true,
+                _ => false,
+            };
+            if !same {
+                return Err(Fail::new(
+                    "reader:budget-judge",
+                    format!(
+                        "a judge that stops at the first segment of more than {budget} encoded bytes (block size {block:?}, stream {}): call #{j} should return {:?}, got {:?}",
+                        show(&stream),
+                        expected3.get(j).map(|(b, r)| (b.len(), r.clone())),
+                        got.as_ref().map(|(io, r)| (io.total_size(), r.clone()))
+                    ),
+                ));
+            }
+        }
+    }
     let nontrivial = (expected.len() >= 2 && interleaved) || (reader.split_sentinels > 0 && !expected.is_empty());
     Ok(Outcome::new(nontrivial)
         .label_if(interleaved, "valid_records_around_skipped_ones")
+        .label_if(budget_stop, "own_judge_stops_on_a_long_segment")
         .label_if(reader.split_sentinels > 0, "FE|FD_split_across_reads")
         .label_if(stopped_by_limit, "stopped_by_limit")
         .label_if(case.max_size.is_some(), "size_limit")
@@ -526,9 +575,9 @@ fn replay(_ctx: &Ctx, group: &str, case: &Value) -> CaseResult {
 pub fn def() -> PropDef {
     PropDef {
         id: "C06",
-        rule: "A case is (stream description, delivery, judge parameters): streams and deliveries as in C08 (records, torn and corrupted records, garbage, lone FE, 0..3 delimiters after each token, whole-stream truncation; scripted short reads / EINTR, block sizes {0,1,2,3,4,5,7,8,64,4096,70000,default}, arena preparation); in one delivery out of four every next_record_bytes call gets its own io_block_size; the standard judge gets a size limit placed at the decoded size of some valid record -1/0/+1 and an offset limit placed at the start of some segment -1/0/+1 (or none). Oracle: split the stream at every FE FD with an independent splitter, keep non-empty segments up to the first one starting at or after the limit, keep those the reference decoder accepts with decoded size <= max; next_record_bytes must return exactly that list of (bytes, byte range), then None three times, without error or panic; last_sentinel_offset is the start of the last delimiter read. A small log truncated at every byte is enumerated; long-streams uses up to 70 tokens (several arena chunks' worth of records) with block sizes 3..4096, so that reads cross arena chunk boundaries in many alignments; block-aligned-tails lays out valid filler records so that a record with a 00 00 final header (252- or 504-byte payload) or a short record ends 0..4 bytes around an I/O block boundary (blocks 64 / 100 / 256 / 1000 / 2048 / 4096), with the arena flushed between records through the returned record's arena(). large-records: 1..4 tokens built on payloads of up to 140000 bytes (one in nine of 0.5..1.3 MB: more than a default I/O block and than the arena's largest chunk), valid, torn or corrupted, block sizes >= 64 and default. transient-eof: the reader now and then returns Ok(0) with bytes left and goes on later; what becomes of a record cut in two that way is not specified, so only this is checked: each returned record is exactly the reference decoding of the segment its byte range designates, ranges go forward, nothing panics, the stream ends up read. Before one generated record the StreamReader is cloned together with the underlying reader's position; the clone must go on to return the same records. The judge object is then used again, by a fresh StreamReader, on a second stream that has a small valid record at every offset where the first stream had a segment: a judge is a function of what it is shown, not of what it has seen. Non-trivial: >= 2 returned records with a skipped (invalid / oversized / empty-payload) segment between two of them, or a read that split an FE|FD pair in a stream with at least one returned record. Distinct: hash of the serialised case.",
+        rule: "A case is (stream description, delivery, judge parameters): streams and deliveries as in C08 (records, torn and corrupted records, garbage, lone FE, 0..3 delimiters after each token, whole-stream truncation; scripted short reads / EINTR, block sizes {0,1,2,3,4,5,7,8,64,4096,70000,default}, arena preparation); in one delivery out of four every next_record_bytes call gets its own io_block_size; the standard judge gets a size limit placed at the decoded size of some valid record -1/0/+1 and an offset limit placed at the start of some segment -1/0/+1 (or none). Oracle: split the stream at every FE FD with an independent splitter, keep non-empty segments up to the first one starting at or after the limit, keep those the reference decoder accepts with decoded size <= max; next_record_bytes must return exactly that list of (bytes, byte range), then None three times, without error or panic; last_sentinel_offset is the start of the last delimiter read. A small log truncated at every byte is enumerated; long-streams uses up to 70 tokens (several arena chunks' worth of records) with block sizes 3..4096, so that reads cross arena chunk boundaries in many alignments; block-aligned-tails lays out valid filler records so that a record with a 00 00 final header (252- or 504-byte payload) or a short record ends 0..4 bytes around an I/O block boundary (blocks 64 / 100 / 256 / 1000 / 2048 / 4096), with the arena flushed between records through the returned record's arena(). large-records: 1..4 tokens built on payloads of up to 140000 bytes (one in nine of 0.5..1.3 MB: more than a default I/O block and than the arena's largest chunk), valid, torn or corrupted, block sizes >= 64 and default. transient-eof: the reader now and then returns Ok(0) with bytes left and goes on later; what becomes of a record cut in two that way is not specified, so only this is checked: each returned record is exactly the reference decoding of the segment its byte range designates, ranges go forward, nothing panics, the stream ends up read. Before one generated record the StreamReader is cloned together with the underlying reader's position; the clone must go on to return the same records. The judge object is then used again, by a fresh StreamReader, on a second stream that has a small valid record at every offset where the first stream had a segment: a judge is a function of what it is shown, not of what it has seen. The stream is also read through a judge of the caller's own, a budget of encoded bytes per record placed at the length of one segment -1/0/+1 and answering Stop above it: the records of the valid segments before the first segment longer than the budget, then end of stream. Non-trivial: >= 2 returned records with a skipped (invalid / oversized / empty-payload) segment between two of them, or a read that split an FE|FD pair in a stream with at least one returned record. Distinct: hash of the serialised case.",
         assumptions: &[
-            "only the standard judge (chunk_judge) is modelled",
+            "judges modelled: the standard one (chunk_judge) and a caller-written budget of encoded bytes per record that answers Stop or KeepGoing",
             "readers only deliver short reads and Interrupted errors",
             "the reference decoder of C07 defines validity",
         ],
